@@ -53,7 +53,7 @@ SKIP_MOD = ("autoarray.plot", "autoarray.fixtures", "autoarray.util.nn")
 
 ALLOWED_REBINDS: Dict[Tuple[str, str], str] = {
     ("AbstractNDArray", "_clear_cached_properties"): "the cache-dropping helper itself",
-    ("AbstractNDArray", "__setitem__"): "explicit element-assignment API",
+    ("AbstractNDArray", "__setitem__"): "explicit element-assignment API (must drop the cached values: C11.clone)",
     ("AbstractInversion", "curvature_reg_matrix"): "evicts the cache entry it has just overwritten (validated by C11.cached)",
     ("Rectangular", "mapper_grids_from"): "stores the profiling dict (run_time_dict), not a reported quantity",
     ("Triangulation", "mapper_grids_from"): "stores the profiling dict (run_time_dict), not a reported quantity",
@@ -313,10 +313,13 @@ def rule_clones(ctx):
                             if v in (f"{s}.{t.attr}.copy()", f"copy.copy({s}.{t.attr})", f"copy.deepcopy({s}.{t.attr})", f"copy({s}.{t.attr})", f"{X}.{t.attr}.copy()"):
                                 continue  # value-preserving
                             changed.append((t.attr, node))
-            if not changed:
-                ctx.ob("C11.clone", f"{f.qualname}:{X}", True, detail="shallow clone whose contents are copied unchanged", nontrivial=False)
+            raw = isinstance(origin, ast.Expr)  # X.__dict__.update(self.__dict__): cached values (and helper objects bound to self) travel along whatever happens next
+            if not changed and not raw:
+                ctx.ob("C11.clone", f"{f.qualname}:{X}", True, detail="copy made through the class's own copy protocol, contents unchanged", nontrivial=False)
                 n += 1
                 continue
+            if not changed:
+                changed = [("__dict__", origin)]
             n += 1
             dropped = False
             for node in f.body_nodes():
@@ -329,6 +332,66 @@ def rule_clones(ctx):
                    message=f"`{X}` is a shallow clone of self (its instance dict, cached-property values included, is copied) whose `{changed[0][0]}` is then replaced, "
                            f"but the cached values are never dropped: the derived object reports quantities of the object it was derived from when those had been read first")
     ctx.require_count("C11.clone", "shallow-clone sites", n, 5)
+    # contents replaced in place: every method outside the constructors that rebinds or writes self._array must drop the cached values afterwards
+    try:
+        base = p.cls("autoarray.abstract_ndarray:AbstractNDArray")
+    except AnchorMissing:
+        return
+    n_w = 0
+    for c in [base] + [x for x in base.all_subclasses() if ".mock" not in x.module.name]:
+        for m in c.methods.values():
+            if m.name in CONSTRUCTORS or not m.params or m.is_staticmethod or m.is_classmethod:
+                continue
+            s_ = m.params[0]
+            writes = []
+            for node in m.body_nodes():
+                tg = node.targets if isinstance(node, ast.Assign) else ([node.target] if isinstance(node, ast.AugAssign) else [])
+                for t in tg:
+                    base_t = t.value if isinstance(t, ast.Subscript) else t
+                    if norm_text(base_t) == f"{s_}._array":
+                        writes.append(node)
+            if not writes:
+                continue
+            n_w += 1
+            drops = [node for node in m.body_nodes() if isinstance(node, ast.Expr) and isinstance(node.value, ast.Call) and norm_text(node.value.func) == f"{s_}._clear_cached_properties"]
+            ok = bool(drops) and all(not wire.enclosing_branches(m, d) for d in drops[-1:]) and drops[-1].lineno > max(w.lineno for w in writes)
+            ctx.ob("C11.clone", f"{m.qualname}: contents written in place", ok, where=m, node=writes[0], construct=f"{m.qualname} writes self._array",
+                   detail="cached values dropped after the write",
+                   message="the method changes the array of an existing object but keeps its cached property values: quantities read before the change are reported again after it")
+    ctx.require_count("C11.clone", "in-place content writes outside constructors", n_w, 1)
+    # no field is computed from the contents at construction: clones share the instance dict, so such a field keeps the parent's value in every derived object
+    E = get_effects(p)
+    n_f = 0
+    for c in [base] + [x for x in base.all_subclasses() if ".mock" not in x.module.name]:
+        init = c.methods.get("__init__")
+        if init is None:
+            continue
+        content = {t[1] for t in effect.effective_fields(E, c).get("_array", set()) if t[0] == "P"}
+        # names derived from the content parameter inside the constructor (visibilities = np.asarray(visibilities) ...)
+        derived = set(content)
+        changed = True
+        while changed:
+            changed = False
+            for node in init.body_nodes():
+                if isinstance(node, ast.Assign) and len(node.targets) == 1 and isinstance(node.targets[0], ast.Name) and node.targets[0].id not in derived:
+                    if any(isinstance(x, ast.Name) and x.id in derived for x in ast.walk(node.value)):
+                        derived.add(node.targets[0].id)
+                        changed = True
+        for node in init.body_nodes():
+            if not isinstance(node, ast.Assign):
+                continue
+            for t in node.targets:
+                if isinstance(t, ast.Attribute) and isinstance(t.value, ast.Name) and t.value.id == init.params[0] and t.attr != "_array":
+                    n_f += 1
+                    v = node.value
+                    computed = not isinstance(v, (ast.Name, ast.Constant, ast.Attribute))
+                    reads = sorted({x.id for x in ast.walk(v) if isinstance(x, ast.Name) and x.id in derived} | ({"self"} if any(isinstance(x, ast.Name) and x.id == init.params[0] for x in ast.walk(v)) else set()))
+                    bad = computed and bool(reads) and bool(content)
+                    ctx.ob("C11.clone", f"{c.name}.__init__: field {t.attr}", not bad, where=init, node=node, construct=f"self.{t.attr} computed from {reads}",
+                           detail="metadata (not computed from the contents)", nontrivial=bad,
+                           message=f"self.{t.attr} is computed from the array contents ({', '.join(reads)}) once, at construction; every object derived by arithmetic, slicing or copying shares the instance dict and "
+                                   f"keeps reporting the parent's value - it must be a property computed from the current contents")
+    ctx.require_count("C11.clone", "constructor field assignments in array classes", n_f, 10)
 
 
 # ------------------------------------------------------------------ seeds
@@ -420,6 +483,14 @@ def rule_seed(ctx):
                 continue
             ctx.ob("C11.seed", f"{f.key}->{tg[0].name}", got in want, where=f, node=c, construct=f"{tg[0].name}(seed={got})",
                    detail=f"seed={got}", message=f"the caller's seed ({want[0]}) is not forwarded to {tg[0].name} (seed={got}): a fixed seed no longer fixes the noise")
+            if got in want and "." in got and f.cls is not None:
+                # the field holding the seed is the constructor's parameter itself (`seed or -1`, int(seed) + 1, ... would turn some fixed seeds into others / into the random one)
+                attr = got.split(".", 1)[1]
+                init = f.cls.lookup("__init__")
+                asg = [n for n in (init.body_nodes() if init else []) if isinstance(n, ast.Assign) and any(norm_text(t) == f"{init.params[0]}.{attr}" for t in n.targets)]
+                okf = len(asg) == 1 and isinstance(asg[0].value, ast.Name) and asg[0].value.id in init.all_params and not wire.enclosing_branches(init, asg[0])
+                ctx.ob("C11.seed", f"{f.cls.name}.{attr} is the constructor's seed", okf, where=init, node=asg[0] if asg else init.node, construct=norm_text(asg[0])[:80] if asg else "no assignment",
+                       message=f"self.{attr} must be the constructor argument itself; a rewritten value maps some fixed seeds to other seeds (0 -> -1 means 'random')")
     ctx.require_count("C11.seed", "RNG draws", n_draw, 3)
     ctx.require_count("C11.seed", "seed forwarding sites", n_fw, 5)
 
@@ -467,9 +538,13 @@ CONTROLS = [
     Control("invert keeps the parent's cached values", _ND, in_func("AbstractNDArray.invert", "        new._clear_cached_properties()\n", ""), "C11.clone"),
     Control("trimmed dataset keeps the parent's cached grids", _DS, in_func("AbstractDataset.trimmed_after_convolution_from", "        for key in list(dataset.__dict__):\n            if isinstance(getattr(type(dataset), key, None), cached_property):\n                del dataset.__dict__[key]\n", ""), "C11.clone"),
     Control("cache-drop helper deletes nothing (inverted test)", _ND, in_func("AbstractNDArray._clear_cached_properties", "if isinstance(getattr(type(self), key, None), cached_property):", "if not isinstance(getattr(type(self), key, None), cached_property):"), "C11.clone"),
+    Control("item assignment keeps cached values (the defect fixed in ea8a434)", _ND, in_func("AbstractNDArray.__setitem__", "            self._array[key] = value\n        self._clear_cached_properties()\n", "            self._array[key] = value\n"), "C11.clone"),
+    Control("__copy__ carries cached values and helper objects bound to the original", _ND, in_func("AbstractNDArray.__copy__", "        new._clear_cached_properties()\n", ""), "C11.clone"),
+    Control("ordered values stored as a constructor-time attribute again (the defect fixed in 04c2816)", "autoarray/structures/visibilities.py", in_func("AbstractVisibilities.__init__", "        super().__init__(array=visibilities)", "        self.ordered_1d_at_construction = np.concatenate((np.real(visibilities), np.imag(visibilities)), axis=0)\n        super().__init__(array=visibilities)"), "C11.clone"),
     Control("poisson noise drawn without seeding", _PP, in_func("poisson_noise_via_data_eps_from", "    setup_random_seed(seed)\n", ""), "C11.seed"),
     Control("gaussian noise seeded only when seed is -1", _PP, in_func("gaussian_noise_via_shape_and_sigma_from", "        seed = np.random.randint(0, int(1e9))\n    np.random.seed(seed)", "        seed = np.random.randint(0, int(1e9))\n        np.random.seed(seed)"), "C11.seed"),
     Control("simulator does not forward its noise seed", _SIM, in_func("SimulatorImaging.via_image_from", "            seed=self.noise_seed,\n", ""), "C11.seed"),
+    Control("seed 0 silently treated as random (seed C11/4)", _SIM, in_func("SimulatorImaging.__init__", "self.noise_seed = noise_seed", "self.noise_seed = noise_seed or -1"), "C11.seed"),
     Control("poisson wrapper drops the seed", _PP, in_func("data_eps_with_poisson_noise_added", "data_eps=data_eps, exposure_time_map=exposure_time_map, seed=seed", "data_eps=data_eps, exposure_time_map=exposure_time_map"), "C11.seed"),
     Control("setup_random_seed replaces every seed", _PP, in_func("setup_random_seed", "    if seed == -1:", "    if seed != 1:"), "C11.seed"),
     Control("query stores its result back into a field", _MV, in_func("MapperValued.values_masked", "        return values", "        self.values = values\n        return values"), "C11.rebind"),
